@@ -1,4 +1,7 @@
+#[cfg(not(cached_verif))]
 use std::sync::atomic::{AtomicU64, Ordering};
+#[cfg(cached_verif)]
+use crate::verif_rt::sync::atomic::{IdAtomicU64 as AtomicU64, Ordering};
 
 /// IncreasingIdGenerator generates ids for the incoming keys.
 /// Each id is an [`AtomicU64`]
